@@ -38,6 +38,11 @@ type memCase struct {
 	Top    bool       `json:"top,omitempty"` // addresses shifted to just below 2^64
 	MaxA   int        `json:"maxa"`          // reads cover addresses 0..MaxA
 	MaxW   int        `json:"maxw"`
+	// NoMidReads: no reads between the stores of the history (by default every address is
+	// read after each store; read/write interleavings are part of the history).
+	NoMidReads bool `json:"no_mid_reads,omitempty"`
+	// NoInitialReads: the memory is not read before the first store either.
+	NoInitialReads bool `json:"no_initial_reads,omitempty"`
 }
 
 // cell is one byte of the model: byte Idx of value Val adjusted to width W.
@@ -336,8 +341,10 @@ func memRun(c memCase) (*eng.Fail, int) {
 	}
 
 	lo := 0
-	if f := surface(site, mem, mdl, off, c, lo); f != nil && len(c.Ops) == 0 {
-		return f, 0
+	if !c.NoInitialReads || len(c.Ops) == 0 {
+		if f := surface(site, mem, mdl, off, c, lo); f != nil && len(c.Ops) == 0 {
+			return f, 0
+		}
 	}
 
 	type returned struct {
@@ -381,7 +388,7 @@ func memRun(c memCase) (*eng.Fail, int) {
 			return &eng.Fail{Sig: site + ".Store panic " + eng.PanicSite(stack), What: fmt.Sprintf("%s.Store(%d, %s, %d) panics: %v", site, op.Addr, ir.Show(v), op.W, p), Case: c}, trans
 		}
 		mdl.store(op.Addr, v, op.W)
-		if i < len(c.Ops)-1 {
+		if i < len(c.Ops)-1 && !c.NoMidReads {
 			// mid-history reads: keep what was returned to verify it is never altered later
 			for a := 0; a <= c.MaxA; a += 1 {
 				for _, w := range []int{1, c.MaxW} {
@@ -475,6 +482,18 @@ func seq(lo, hi int) []int {
 	return out
 }
 
+// memDoRW runs a history with every read/write interleaving class: reads after every store
+// (default), no reads between the stores, and no reads at all before the final surface.
+func memDoRW(r *eng.Run, c memCase) {
+	memDo(r, c)
+	if len(c.Ops) >= 2 {
+		c.NoMidReads = true
+		memDo(r, c)
+		c.NoInitialReads = true
+		memDo(r, c)
+	}
+}
+
 func memDo(r *eng.Run, c memCase) {
 	f, t := memRun(c)
 	r.Eval(1)
@@ -493,7 +512,7 @@ func memDo(r *eng.Run, c memCase) {
 func init() {
 	checks["C14"] = eng.Check{
 		Hist:        true,
-		Rule:        "Sparse memory: every history (no state merging) of <=2 stores over the full alphabet (addr 0..5 x width 1..4 x value kinds {exact constant, symbolic register, value narrower than the write, value wider than the write, wide symbolic}) and of 3 stores (quick: addr 0..4, widths 1..4, kinds const/sym; thorough: full alphabet; thorough also 4 stores over addr 0..3, widths 1..3, const/sym; plus histories of 2..3 stores ending with a store of exactly the bytes the memory already holds there), on a fresh real Sparse each; after each history every Load(a,w), Missing(a,w) for a in 0..8, w in 1..4 and Blocks() compared with a byte map (values under 3 valuations); digests of all values handed in / returned mid-history re-checked at the end. Repeated with all addresses shifted to just below 2^64. Non-trivial = history of >=2 stores.",
+		Rule:        "Sparse memory: every history (no state merging) of <=2 stores over the full alphabet (addr 0..5 x width 1..4 x value kinds {exact constant, symbolic register, value narrower than the write, value wider than the write, wide symbolic}) and of 3 stores (quick: addr 0..4, widths 1..4, kinds const/sym; thorough: full alphabet; thorough also 4 stores over addr 0..3, widths 1..3, const/sym; plus histories of 2..3 stores ending with a store of exactly the bytes the memory already holds there), on a fresh real Sparse each; after each history every Load(a,w), Missing(a,w) for a in 0..8, w in 1..4 and Blocks() compared with a byte map (values under 3 valuations); digests of all values handed in / returned mid-history re-checked at the end. Histories of 2 stores are run with three read/write interleavings (reads after every store, none between the stores, none before the end); wide loads (every width 1..72) over three layouts of many blocks. Repeated with all addresses shifted to just below 2^64. Non-trivial = history of >=2 stores.",
 		Assumptions: []string{"address ranges do not wrap around 2^64", "write widths 1..4 (wider writes are covered by a few hand-picked wide cases only)"},
 		Run: func(r *eng.Run) {
 			full := memAlpha(seq(0, 5), seq(1, 4), []string{"const", "sym", "narrow", "wide", "symwide"})
@@ -505,7 +524,7 @@ func init() {
 				top := top
 				memDo(r, memCase{Mem: "sparse", Top: top, MaxA: 8, MaxW: 4})
 				histories(r, full, 2, func(ops []memOp) {
-					memDo(r, memCase{Mem: "sparse", Ops: append([]memOp{}, ops...), Top: top, MaxA: 8, MaxW: 4})
+					memDoRW(r, memCase{Mem: "sparse", Ops: append([]memOp{}, ops...), Top: top, MaxA: 8, MaxW: 4})
 				})
 				// stores of the value the memory already holds (no-op stores), last in the history
 				histories(r, same, 3, func(ops []memOp) {
@@ -544,6 +563,16 @@ func init() {
 						memDo(r, memCase{Mem: "sparse", Ops: []memOp{{0, w, k}, {a2, 1, "const"}}, MaxA: w + 1, MaxW: 4})
 					}
 				}
+			}
+			// wide loads (up to 72 bytes) composed of many stored blocks: every load width at the
+			// first addresses over block layouts reaching beyond 32 and 64 bytes
+			for _, lay := range [][]memOp{
+				{{0, 8, "const"}, {8, 8, "sym"}, {16, 16, "const"}, {32, 4, "const"}, {36, 2, "sym"}, {38, 1, "const"}, {39, 8, "const"}},
+				{{0, 1, "const"}, {1, 33, "const"}, {34, 8, "sym"}, {42, 30, "const"}},
+				{{0, 40, "narrow"}, {33, 2, "const"}, {64, 8, "const"}, {40, 24, "sym"}},
+			} {
+				memDo(r, memCase{Mem: "sparse", Ops: lay, MaxA: 3, MaxW: 72})
+				memDo(r, memCase{Mem: "overlay", Base: "bytes", Blocks: []memBlock{{2, "b2b3b4"}, {35, "c5"}}, Ops: lay, MaxA: 3, MaxW: 72})
 			}
 			r.Sample(memCase{Mem: "sparse", Ops: []memOp{{0, 4, "sym"}, {1, 2, "const"}, {2, 4, "wide"}}, MaxA: 8, MaxW: 4})
 		},
